@@ -93,9 +93,10 @@ var c04Inputs = []string{
 	"sw(); println(f(1))",
 	"func two2() { verif_counter() }; func one1() { two2() }; func zero0() { one1() }; println(zero0(), zero0(), zero0())",
 	// a self-recursive function that reads a mutable global before recursing
-	"func rg(n) { if n == 0 { 0 } else { gl + rg(n - 1) } }; println(catch(rg(3)))", "println(catch(rg(2)))", "println(catch(rg(3)), catch(rg(1)))",
+	"gl = 1; func rg(n) { if n == 0 { 0 } else { gl + rg(n - 1) } }; println(rg(3))", "println(catch(rg(2)))", "println(catch(rg(3)), catch(rg(1)))",
+	"gl = 1; rl = func(n) { if n <= 0 { return 0 }; gl + rl(n - 1) }; println(rl(3)); gl = 5; println(rl(2), rl(1), rl(3))",
 	// a stateful extension that fails (caught inside a user function), then succeeds after the state changed
-	"paint = func() { catch(image.set(\"im4\", 0, 0, [1, 2, 3])).err }; println(paint())", "image.new(\"im4\", 2, 2); println(paint())", "println(catch(paint()))",
+	"paint = func() { catch(image.set(\"IMG4\", 0, 0, [1, 2, 3])).err }; println(paint())", "image.new(\"IMG4\", 2, 2); println(paint())", "println(catch(paint()))",
 	// a printing variadic function called with an outer one-element array from inside a function, then with the flat arguments
 	"one = [5]; func tv(a, ..) { println(\"tv\", a, ..); a }; func callit() { tv(1, one) }; println(callit()); println(tv(1, 5)); println(tv(1, 5))",
 	"func tv2(..) { println(\"tv2\", ..); len(..) }; two = [[7]]; func c2() { tv2(two) }; println(c2(), tv2([7]), tv2([7]), tv2(7), tv2(7))",
@@ -117,11 +118,17 @@ var c04Inputs = []string{
 
 type c04Cfg struct{ noReg bool }
 
+var c04RunCounter int
+
 func c04Run(hist []string, cacheOff, noReg bool) []stepRec {
 	x := newSess(sessCfg{noReg: noReg, cacheOff: cacheOff})
 	recs := make([]stepRec, len(hist))
+	// the image table is one per process: every run gets its own image name (IMG4), or the runs being compared would
+	// see each other's images
+	c04RunCounter++
+	img := fmt.Sprintf("im4r%d", c04RunCounter)
 	for i, h := range hist {
-		recs[i] = x.step(h)
+		recs[i] = x.step(strings.ReplaceAll(h, "IMG4", img))
 	}
 	return recs
 }
@@ -194,7 +201,7 @@ func init() {
 		Level: "model_checking",
 		Rule: "depth-bounded complete exploration of REPL histories: every sequence of <=3 (thorough 4) inputs over an alphabet of ~40 inputs (define/redefine a callee, closures with identical inner text capturing lower-case / upper-case / function-valued variables, functions that print, fail, read and write globals, wrap a non-deterministic extension, take hashable and unhashable arguments, 5 arguments, -0.0/0.0, 1/1.0/\"1\"/true, recursion, functions whose printed text coincides) run on one persistent state with the function cache on and off (build-tag hook), each with registers on and off. Oracle: identical output (order and multiplicity), shown results and error texts for every input. Non-trivial = every history (each replays real calls); distinct by the input sequence.",
 		Assume:      []string{"cache disabled through the verif build-tag hook eval.VerifCacheOff (lookups miss, stores are no-ops)", "non-deterministic extensions modelled by verif_counter() (DontCache)"},
-		QuickCap:    100 * time.Second,
+		QuickCap:    150 * time.Second,
 		ThoroughCap: 20 * time.Minute,
 		HangLimit:   240 * time.Second,
 		Run:         runC04,
